@@ -38,6 +38,8 @@ def sig_of(rec):
         parts.append("state-changed-before-login")
     if not d.get("okChurn", True):
         parts.append("id-of-connected-user-reused")
+    if not d.get("okCred", True):
+        parts.append("stored-credentials-differ-from-current-password")
     if not d.get("okStorm", True):
         parts.append("concurrent-storm")
     return "%s/%s" % (rec.get("prop"), "/".join(parts))
